@@ -89,5 +89,23 @@ def oracle(c, got):
     return None
 
 
+def shrink(c, fails):
+    """drop operations one at a time while the history still violates the property"""
+    ops = list(c.args[1])
+    changed = True
+    budget = 400
+    while changed and budget > 0:
+        changed = False
+        i = len(ops) - 1
+        while i >= 0 and budget > 0:
+            cand = ops[:i] + ops[i + 1:]
+            budget -= 1
+            if cand and fails(Case(None, c.tag, ('hist', tuple(cand)))):
+                ops = cand
+                changed = True
+            i -= 1
+    return Case(None, c.tag, ('hist', tuple(ops)))
+
+
 def repro(c):
     return 'replay ops %r with harness/ipset_hist.py:run_impl (args built by build_arg)' % (c.args[1],)
